@@ -22,7 +22,7 @@ sys.path.insert(0, ROOT)
 
 from pyvc import sym, interp, models, contract, solve, loader, bounded  # noqa: E402
 
-CONTRACT_MODULES = ["der", "util", "numbertheory", "ellipticcurve", "ecdsa_", "keys", "rfc6979", "ecdh", "keys_load", "curves"]
+CONTRACT_MODULES = ["der", "util", "numbertheory", "ellipticcurve", "ecdsa_", "keys", "rfc6979", "ecdh", "keys_load", "keys_ser", "curves"]
 
 
 def load_all():
